@@ -22,11 +22,10 @@ MANIFEST = dict(
          "model is tied to the C by differential correspondence on the written files, byte mutants and the repository corpus.",
     note="Proved (Lean kernel, axioms propext/Classical.choice/Quot.sound): MOD whole-file round trip read(write s o)=some s for all "
          "signature kinds and option streams; S3M packed-pattern codec for every what-flag choice; XM cell codec for unpacked and every "
-         "packed mask; IT note/volume/instrument byte codecs; 8-bit sign conversion. NOT proved, only evaluated on every generated case "
+         "packed mask; IT note/volume/instrument byte codecs; IT 2.14/2.15 sample decompressor model vs the writer's widest-code compressor for one block at bit level; 8/16-bit sign conversion and delta storage. NOT proved, only evaluated on every generated case "
          "(rt ok) and checked against the real loader: file-level assembly of S3M/XM/IT (headers, offset tables, sample headers, PCM "
          "conversions delta/16-bit/stereo), the IT mask/last-value pattern compression. Not modelled (model silent, oracle still "
-         "compares what the real loader returns for written files): IT instrument mode (IMPI headers, key maps, envelopes), IT2.14/2.15 "
-         "compressed samples (itsex.c), XM <= 1.03 layout, AdLib/ADPCM/OGG samples, truncated files, effect columns (opaque), "
+         "compares what the real loader returns for written files): IT instrument mode (IMPI headers, key maps, envelopes), XM <= 1.03 layout, AdLib/ADPCM/OGG samples, truncated files, effect columns (opaque), "
          "xpo/fin derived from c2spd by floating point (S3M/IT), XMP_SAMPLE_LOOP_FULL, envelopes and every field the property does not "
          "list. Observation rule: loop points compared only when the loop flag is set. Domain restrictions found by the oracle/proofs: "
          "the order list must reach a pattern before an end marker (scan refuses otherwise), MOD sample bodies must not spell 'ADPCM' "
@@ -37,7 +36,7 @@ MANIFEST = dict(
 )
 REQUIRED = ["Xmp.Fmt.C19_roundtrip_mod", "Xmp.Fmt.C19_mod_period_roundtrip", "Xmp.Fmt.C19_mod_adpcm_hypothesis_needed",
             "Xmp.Fmt.C19_s3m_pattern_codec", "Xmp.Fmt.C19_s3m_note_codec", "Xmp.Fmt.C19_xm_cell_codec",
-            "Xmp.Fmt.C19_xm_cells_codec", "Xmp.Fmt.C19_it_field_codecs_partial", "Xmp.Fmt.C19_pcm_sign8_involutive", "Xmp.Fmt.C19_pcm_sign16_involutive",
+            "Xmp.Fmt.C19_xm_cells_codec", "Xmp.Fmt.C19_it_field_codecs_partial", "Xmp.Fmt.C19_it_compress_block_partial", "Xmp.Fmt.C19_pcm_sign8_involutive", "Xmp.Fmt.C19_pcm_sign16_involutive",
             "Xmp.Fmt.C19_pcm_delta8", "Xmp.Fmt.C19_pcm_delta16"]
 
 TYPE_PREFIX = {"mod": None, "s3m": " S3M", "xm": " XM ", "it": " IT "}
@@ -57,8 +56,22 @@ def parse_blocks(text):
     return out
 
 
+def _big_stack():
+    # the Lean model uses plain structural recursion over sample data: megabyte-sized samples need a deep stack
+    import resource
+    soft, hard = resource.getrlimit(resource.RLIMIT_STACK)
+    want = 4 << 30
+    if hard != resource.RLIM_INFINITY:
+        want = min(want, hard)
+    try:
+        resource.setrlimit(resource.RLIMIT_STACK, (want, hard))
+    except (ValueError, OSError):
+        pass
+
+
 def run_proc(cmd, text, timeout=1800):
     p = subprocess.run(cmd, input=text.encode(), stdout=subprocess.PIPE, stderr=subprocess.PIPE, timeout=timeout,
+                       preexec_fn=_big_stack,
                        env=dict(os.environ, ASAN_OPTIONS="detect_leaks=0:allocator_may_return_null=1",
                                 UBSAN_OPTIONS="print_stacktrace=1"))
     return p.returncode, p.stdout.decode("latin-1"), p.stderr.decode("utf-8", "replace")
@@ -105,8 +118,11 @@ def first_diff(a, b):
         if x != y:
             fx, fy = x.split(" "), y.split(" ")
             k = next((j for j, (p, q) in enumerate(zip(fx, fy)) if p != q), min(len(fx), len(fy)))
-            return "%s field#%d: expected %s got %s" % (" ".join(fx[:2]), k, (fx[k] if k < len(fx) else "<none>")[:48],
-                                                       (fy[k] if k < len(fy) else "<none>")[:48]), fx[0]
+            ex, go = (fx[k] if k < len(fx) else "<none>"), (fy[k] if k < len(fy) else "<none>")
+            at = next((j for j, (p, q) in enumerate(zip(ex, go)) if p != q), min(len(ex), len(go)))
+            lo = max(0, at - 8) if len(ex) > 48 else 0
+            return "%s field#%d (first difference at char %d of %d): expected %s got %s" % (
+                " ".join(fx[:2]), k, at, len(ex), ex[lo:lo + 48], go[lo:lo + 48]), fx[0]
     if len(a) != len(b):
         return "dump has %d lines, expected %d" % (len(b), len(a)), "lines"
     return None, None
@@ -192,6 +208,12 @@ def run(ck):
         for i in range(n):
             size = 0 if i % 3 == 0 else (1 if i % 3 == 1 or quick else 2)
             reqs.append("gen %s %s-g%d %d %d" % (fmt, fmt, i, ck.seed * 100003 + i * 7 + vlib.hash_str(fmt) % 1000, size))
+        # size classes with sample data placed beyond 64 KiB (5) and beyond 1 MiB (6) of the file, for every format;
+        # long IT-compressed samples spanning several blocks (3)
+        nbig = {"quick": (2, 1, 3), "thorough": (6, 3, 12)}[ck.tier]
+        for cls, cnt in ((5, nbig[0]), (6, nbig[1])) + (((3, nbig[2]),) if fmt == "it" else ()):
+            for j in range(cnt):
+                reqs.append("gen %s %s-s%d-%d %d %d" % (fmt, fmt, cls, j, ck.seed * 100003 + 31 * j + cls, cls))
         if fmt == "xm":
             # regression witnesses of the two repaired end-of-file defects (their signatures must fire again if they return)
             for w in (7, 8):
@@ -241,6 +263,10 @@ def run(ck):
             nontrivial = any(l.startswith("smp ") and not l.endswith(" -") for l in body) and len(data) > 1084
             ck.count(key, nontrivial=nontrivial)
             bump(fmt + "_oracle_cases")
+            sp = (meta.get("opts") or "").split(" ")[0]
+            if sp in ("special=3", "special=5", "special=6"):
+                bump(fmt + "_oracle_" + {"special=3": "multiblock_compressed", "special=5": "samples_beyond_64KiB",
+                                         "special=6": "samples_beyond_1MiB"}[sp])
             bump(fmt + "_oracle_bytes", len(data))
             ck.sample({"fmt": fmt, "id": cid, "opts": meta.get("opts"), "size": len(data)}, limit=6)
             if rbody and rbody[0].startswith("loadfail"):
